@@ -371,11 +371,20 @@ fn main() {
             for a in strs { vals.push(Value::make_str(a)); vals.push(Value::make_ref_with_dis("r", a)); vals.push(Value::make_xstr_from("Bin", a)); }
             for a in ["a", "a.b:c-d~e_f", "x1"] { vals.push(Value::make_ref(a)); vals.push(Value::make_symbol(a)); }
             for a in ["/a/b", "http://x/é?q=1#f", "a`b", "a😀", "a\\b", "\\", "a\\:b\\`c", "[x]@y&z=1;2"] { vals.push(Value::make_uri(a)); }
+            // numbers: every component incl. the sign of zero, subnormals, 1e21-class magnitudes, the non-finite ones, units
+            let kg = libhaystack::units::get_unit_or_default("kg"); let pct = libhaystack::units::get_unit_or_default("%");
+            for x in [0.0f64, -0.0, 1.0, -1.0, 0.5, -2.25, 1e-7, 5e-324, 2.2250738585072014e-308, 1e21, 123456789012345680000.0, 9007199254740993.0,
+                      9223372036854775807.0, -9223372036854775808.0, 1.7976931348623157e308, -1.7976931348623157e308, 0.1 + 0.2, f64::NAN, f64::INFINITY, f64::NEG_INFINITY] {
+                vals.push(Value::make_number(x));
+                if x.is_finite() { vals.push(Value::make_number_unit(x, kg)); vals.push(Value::make_number_unit(x, pct)); }
+                if x.is_finite() && x.abs() <= 90.0 { vals.push(Value::make_coord_from(x, -x)); vals.push(Value::make_coord_from(-x, 2.0 * x)); }
+            }
             for v in &vals {
                 let z = v.to_zinc_string();
                 let back = z.as_ref().ok().map(|z| from_str(z));
                 let same = match (&back, v) {
                     (Some(Ok(Value::Ref(b))), Value::Ref(a)) => a.value == b.value && a.dis == b.dis,
+                    (Some(Ok(b)), Value::Number(_)) | (Some(Ok(b)), Value::Coord(_)) => format!("{b:?}") == format!("{v:?}"),
                     (Some(Ok(b)), a) => a == b,
                     _ => false,
                 };
